@@ -704,8 +704,7 @@ fn seg_uniq(run: &mut Runner, r: &mut R) {
         Stmt::Insert { tbl: "t1".into(), cols, rows: vec![row] }
     };
     if late_index {
-        // duplicate-free prefix, then the index (a rejected CREATE UNIQUE INDEX leaves a dangling index or panics:
-        // finding FailedCreateIndexUnclean), then the history proper
+        // a prefix of rows, then the index, then the history proper
         let k = r.random_range(0..6);
         for _ in 0..k { let id = t.next_id; t.next_id += 1; let c1 = r.random_range(0..4); let st = ins(id, c1, &t, r); if run.auto(&st).is_ok() { keys.push((id, c1)); } }
         // some of them are deleted again (dead, un-vacuumed rows in front of live ones), sometimes re-inserted
@@ -717,6 +716,24 @@ fn seg_uniq(run: &mut Runner, r: &mut R) {
             if r.random_bool(0.4) { let st = ins(id, c1, &t, r); if run.auto(&st).is_ok() { keys.push((id, c1)); } }
         }
         if r.random_bool(0.3) { run.vacuum(); }
+        // a rejected attempt first: with a duplicate key in the table the index must be refused and leave nothing behind
+        // (name still free, later INSERTs work, the successful attempt below goes through)
+        if !keys.is_empty() && r.random_bool(0.5) {
+            let (id, c1) = keys[r.random_range(0..keys.len())];
+            let dup = ins(id, c1, &t, r);
+            if run.auto(&dup).is_ok() {
+                run.auto(&Stmt::Index { name: "t1_u".into(), tbl: "t1".into(), cols: ucols.iter().map(|c| (*c, t.def.cols[*c - 1].name.clone())).collect() });
+                run.auto(&sel);
+                // remove both copies, put one back
+                let idc = col(&t, "t1", 0, 0);
+                let c1c = col(&t, "t1", 1, 0);
+                let pred = E::Bin("and", Box::new(E::Bin("eq", Box::new(idc), Box::new(E::Lit(V::Int(id))))), Box::new(E::Bin("eq", Box::new(c1c), Box::new(E::Lit(V::Int(c1))))));
+                run.auto(&Stmt::Delete { tbl: "t1".into(), wher: pred, has_where: true });
+                keys.retain(|k| *k != (id, c1));
+                let st = ins(id, c1, &t, r);
+                if run.auto(&st).is_ok() { keys.push((id, c1)); }
+            }
+        }
         let o = run.auto(&Stmt::Index { name: "t1_u".into(), tbl: "t1".into(), cols: ucols.iter().map(|c| (*c, t.def.cols[*c - 1].name.clone())).collect() });
         if o.is_ok() { indexed = true; }
         run.auto(&sel);
